@@ -424,3 +424,22 @@ func sortedCopy(a []string) []string {
 	sort.Strings(out)
 	return out
 }
+
+// sysQConfig: the queue configuration a node built from spec runs with,
+// including the documented defaults (docs/configuration.md "Defaults Table").
+func sysQConfig(spec *SysSpec) QConfig {
+	backend := spec.Backend
+	if backend == "" {
+		backend = "sqlite"
+	}
+	c := QConfig{Backend: backend, MaxDepth: 10000, DropPolicy: "reject",
+		RetentionMaxAge: 7 * 24 * time.Hour, PruneInterval: 5 * time.Minute,
+		DLQMaxAge: 30 * 24 * time.Hour, DLQMaxDepth: 10000, DeliveredMaxAge: spec.Delivered}
+	if spec.MaxDepth > 0 {
+		c.MaxDepth = spec.MaxDepth
+	}
+	if spec.DropPolicy != "" {
+		c.DropPolicy = spec.DropPolicy
+	}
+	return c
+}
